@@ -138,9 +138,6 @@ Definition graph_eqv (g g' : agraph) : Prop := exists l, Permutation g l /\ Fora
 Definition graph_of_slice (s : slice) : agraph :=
   map GNode (sl_nodes s) ++ map GPort (sl_ports s) ++ map GSvc (sl_svcs s) ++ map GFac (sl_facs s).
 
-(* ---- dispatch: member classes handed out by the topology API that collect_resource_attributes does NOT route
-        (exact-class METHOD_LUT lookup; known finding C11 "PortMirrorService not dispatched", see notes/C11.md).
-        Becomes [] when proposed_fixes/C11-1.patch lands. ---- *)
-Definition known_unrouted : list string := ["PortMirrorService"%string].
+(* ---- dispatch: a member class handed out by the topology API is routed when both METHOD_LUTs have an entry for it ---- *)
 Definition smem_s (x : string) (l : list string) : bool := existsb (String.eqb x) l.
 Definition routed (c : string) : bool := smem_s c (map fst method_lut) && smem_s c (map fst log_method_lut).
